@@ -271,7 +271,32 @@ def _impl_chunk(cases):
     # the case line for the model is computed in the worker too: an ENCODE hook may run
     # baize (e.g. to obtain the bare application's trace) and must not start threads in
     # the parent before the fork
-    return [(_encode_one(c), enc_line(_as_items(_impl_one(c)))) for c in cases]
+    cov = _cov_start()
+    try:
+        return [(_encode_one(c), enc_line(_as_items(_impl_one(c)))) for c in cases]
+    finally:
+        _cov_stop(cov)
+
+
+def _cov_start():
+    """VERIF_COVERAGE=<dir>: record which lines and branches of baize the implementation drivers execute
+    (tools/covreport.py combines the files).  A measurement of how much of the code the tie reaches; it
+    decides nothing and is off in the registered checks."""
+    d = os.environ.get("VERIF_COVERAGE")
+    if not d:
+        return None
+    import coverage
+    os.makedirs(d, exist_ok=True)
+    cov = coverage.Coverage(data_file=os.path.join(d, "cov"), data_suffix=True, branch=True,
+                            include=[os.path.join(REPO, "baize", "*")])
+    cov.start()
+    return cov
+
+
+def _cov_stop(cov):
+    if cov is not None:
+        cov.stop()
+        cov.save()
 
 
 def _as_items(obs):
